@@ -83,6 +83,15 @@ def gen_case(rng):
         lines.append({'kind': 'eq', 'text': eqline(name, rhs), 'trail': r.random() < 0.5})
         expected.append(['lag' if cls == 'lag' else 'endo', name,
                          [l['src'] for l in spec['lags'] if l['name'] == name][0] if cls == 'lag' else rhs])
+    used_names = set(G.all_value_names(spec) + [d['name'] for d in spec['decos']])
+    case_variants = []
+    if r.random() < 0.4:
+        # ordinary variables whose names differ from the reserved ones only by letter case (T for taxes, ...)
+        for nm, val in (('T', '12.5'), ('maxtime', '3.0'), ('MAXTIME', '7.0'), ('err_tolerance', '0.5'), ('K', '2.0')):
+            if nm not in used_names and r.random() < 0.6:
+                lines.insert(r.randint(0, len(lines)), {'kind': 'eq', 'text': eqline(nm, val), 'trail': r.random() < 0.4})
+                expected.append(['endo', nm, val])
+                case_variants.append(nm)
     for n, v in spec['ics'].items():
         lines.insert(r.randint(0, len(lines)), {'kind': 'eq', 'text': eqline(n + '(0)', G.fmt_num(v)),
                                                 'trail': r.random() < 0.3})
@@ -109,7 +118,9 @@ def gen_case(rng):
         params = []
     if spec['exos'] or r.random() < 0.3:
         marker = r.choice(['# Exogenous Variables', 'exogenous', 'Exogenous', '# EXOGENOUS', '#exogenous section',
-                           '  Exogenous variables follow', '# ---- exogenous ----'])
+                           '  Exogenous variables follow', '# ---- exogenous ----',
+                           # a block typed inside an indented string: the comment-line marker is indented too
+                           '    # Exogenous variables', '\t# exogenous', '        #   EXOGENOUS   '])
         lines.append({'kind': 'marker', 'text': marker})
         for e in spec['exos']:
             lines.append({'kind': 'eq', 'text': eqline(e['name'], e['text']), 'trail': r.random() < 0.4})
@@ -121,6 +132,7 @@ def gen_case(rng):
     return {'kind': 'block', 'lines': lines, 'expected': expected, 'malformed': malformed,
             'maxtime': spec['maxtime'], 'tol': spec['tol'], 'has_time': spec['time'] is not None,
             'ic_on_default_time': any(e[0] == 'ic' and e[1] == 't' for e in expected) and spec['time'] is None,
+            'case_variants': case_variants,
             'cseed': rng.getrandbits(30), 'names': G.all_value_names(spec) + [d['name'] for d in spec['decos']]}
 
 
@@ -141,6 +153,7 @@ class C14(object):
                    'a whole-line comment containing the marker word IS the marker (the model emits it that way)']
     required_counters = ('block.judged', 'lines.judged', 'hostile_variant.judged', 'malformed.judged', 'bad_run_parameter.judged', 'reused_parser.judged',
                          'block.judged.with_initial_condition_on_default_time_axis',
+                         'block.judged.with_names_differing_from_reserved_ones_by_case', 'block.judged.with_indented_comment_marker',
                          'model_desc.judged')
 
     def n_cases(self, tier):
@@ -201,6 +214,10 @@ class C14(object):
         rec.count('block.judged')
         if case.get('ic_on_default_time'):
             rec.count('block.judged.with_initial_condition_on_default_time_axis')
+        if case.get('case_variants'):
+            rec.count('block.judged.with_names_differing_from_reserved_ones_by_case')
+        if any(ln['kind'] == 'marker' and ln['text'] != ln['text'].lstrip() and ln['text'].lstrip().startswith('#') for ln in case['lines']):
+            rec.count('block.judged.with_indented_comment_marker')
         # a parser object that has already read another block (with an exogenous section and its own time variable)
         # classifies this one exactly like a fresh parser
         from sfc_models.equation_parser import EquationParser
